@@ -111,7 +111,8 @@ int write_srec(Memory *memory, FILE *out, int srec_size)
 {
   uint8_t data[LINE_LENGTH];
   uint32_t address = 0;
-  uint32_t n;
+  // 64 bit so the loop ends when high_address is 0xffffffff.
+  uint64_t n;
   int len, type;
 
   if (srec_size == SREC_24)
